@@ -373,13 +373,14 @@ func (c *Ctx) totalOps(owner string, body *ast.BlockStmt, arity int, argsObj typ
 		case *ast.CallExpr:
 			nm := c.calleeName(n)
 			switch nm {
-			case "builtin.panic":
+			case "builtin.panic", "util.Assert", "util.Unreachable":
+				// one class: an explicit failure (after canonicalisation `if c { panic(x) }` is util.Assert(!c, x))
 				if r, ok := partialTable[owner+"|panic"]; ok {
-					c.R.OK(owner, "panic", n.Pos(), "%s", r)
+					c.R.OK(owner, "explicit failure", n.Pos(), "%s", r)
 				} else {
-					c.R.Bad(owner, "panic", n.Pos(), "explicit panic in a function that is not in the documented-partial table")
+					c.R.Bad(owner, "explicit failure "+nm, n.Pos(), "explicit panic / assertion in a function that is not in the documented-partial table")
 				}
-			case "util.Assert", "util.Unreachable", "regexp.MustCompile":
+			case "regexp.MustCompile":
 				c.R.Bad(owner, "call "+nm, n.Pos(), "can fail in a function that is not in the documented-partial table")
 			}
 		}
@@ -404,10 +405,38 @@ func ruleTotal1(c *Ctx) {
 		}
 	}
 	if fd := c.FuncDecl("val", "MaybeVal.GetOrDefault"); fd != nil {
-		// MAYBE-1: nil payload -> default, otherwise payload
-		s := c.sxN(fd, fd.Body.List)
-		ok := strings.HasPrefix(s, "[(IfStmt Cond:(BinaryExpr (SelectorExpr $r Sel:V) Op:== Y:nil)") && strings.Contains(s, "(ReturnStmt Results:[$p0])") && strings.Contains(s, "Else:(BlockStmt [(ReturnStmt Results:[(SelectorExpr $r Sel:V)])])")
-		c.R.Check(ok, "val.MaybeVal.GetOrDefault", "MAYBE-1 absent -> default, present -> payload", fd.Pos(), "the sole eliminator of optionals is total", "GetOrDefault is not `if v.V == nil { return default } else { return v.V }`")
+		// MAYBE-1: nil payload -> default, otherwise payload (path enumeration: any arrangement of if/else/early return)
+		tc := &termCtx{c: c, defs: c.localDefs(fd.Body), names: map[types.Object]string{}}
+		if fd.Recv != nil && len(fd.Recv.List) == 1 && len(fd.Recv.List[0].Names) == 1 {
+			tc.names[c.objOf(fd.Recv.List[0].Names[0])] = "r"
+		}
+		if len(fd.Type.Params.List) == 1 && len(fd.Type.Params.List[0].Names) == 1 {
+			tc.names[c.objOf(fd.Type.Params.List[0].Names[0])] = "p0"
+		}
+		paths, pok := c.retPaths(fd.Body.List)
+		got := map[string]string{}
+		for _, p := range paths {
+			if p.end != "return" || len(p.ret.Results) != 1 {
+				pok = false
+				continue
+			}
+			var cs []string
+			for _, pc := range p.conds {
+				t := tc.tr(pc.e)
+				if !pc.pos {
+					if strings.HasPrefix(t, "not(") {
+						t = t[4 : len(t)-1]
+					} else {
+						t = "not(" + t + ")"
+					}
+				}
+				cs = append(cs, t)
+			}
+			sort.Strings(cs)
+			got[strings.Join(cs, "&")] = tc.tr(p.ret.Results[0])
+		}
+		ok := pok && len(got) == 2 && got["eq(nil,r.V)"] == "p0" && got["not(eq(nil,r.V))"] == "r.V"
+		c.R.Check(ok, "val.MaybeVal.GetOrDefault", "MAYBE-1 absent -> default, present -> payload", fd.Pos(), "the sole eliminator of optionals is total", fmt.Sprintf("GetOrDefault must return the default exactly when the payload is nil and the payload otherwise; paths found: %v", got))
 	} else {
 		c.R.Anchor("val.MaybeVal.GetOrDefault")
 	}
